@@ -234,6 +234,14 @@ impl<'tcx> Cx<'tcx> {
                     j.comma();
                     j.kv_str("int", &format!("{}", si.to_bits_unchecked()));
                 }
+                if let Const::Val(ConstValue::Scalar(mir::interpret::Scalar::Ptr(ptr, _)), _) = c.const_ {
+                    if let Some(ga) = self.tcx.try_get_global_alloc(ptr.provenance.alloc_id()) {
+                        if let mir::interpret::GlobalAlloc::Static(sd) = ga {
+                            j.comma();
+                            j.kv_str("static", &path(self.tcx, sd));
+                        }
+                    }
+                }
                 if let Const::Unevaluated(u, _) = c.const_ {
                     j.comma();
                     j.kv_str("uneval", &path(self.tcx, u.def));
